@@ -55,6 +55,14 @@ func c14ToyRun(plan c14ToyPlan, seed int64, col *c14Col) (res c14ToyResult) {
 		}
 	}
 
+	// ---- freshness at toy size
+	for _, m := range []int64{0, 1, N - 1} {
+		sc := c14Scenario{Key: key.Ref, Op: "Fresh", Args: c14Strs(bi(m)), Seed: seed*7919 + N + 77 + m, Count: 64}
+		o := &c14Op{k: key, col: col, sc: func() c14Scenario { return sc }}
+		o.fresh(newC14Tape(sc.Seed), bi(m), sc.Count)
+		res.Stats["fresh_series"]++
+	}
+
 	// ---- E1: every plaintext of a window around [0,N) (and around N^2), in range: with every unit as randomiser
 	var plains []int64
 	for m := int64(-c14Margin); m <= N+c14Margin; m++ {
@@ -114,9 +122,8 @@ func c14ToyRun(plan c14ToyPlan, seed int64, col *c14Col) (res c14ToyResult) {
 				okAll = false
 			}
 		}
-		if okAll && len(seen) < len(units) && col.violations() == 0 {
+		if okAll && len(seen) < len(units) && res.Inconcl == "" {
 			res.Inconcl = fmt.Sprintf("N=%d, m=%d: only %d of %d units were ever reported as randomiser", N, m, len(seen), len(units))
-			return
 		}
 		res.Stats["plaintext_x_unit_pairs_covered"] += len(seen)
 		for i := 0; i < plan.AnyPerPlain; i++ {
@@ -127,14 +134,6 @@ func c14ToyRun(plan c14ToyPlan, seed int64, col *c14Col) (res c14ToyResult) {
 		}
 	}
 	res.Coverage = fmt.Sprintf("%d plaintexts x %d units", N, len(units))
-
-	// ---- freshness at toy size
-	for _, m := range []int64{0, 1, N - 1} {
-		sc := c14Scenario{Key: key.Ref, Op: "Fresh", Args: c14Strs(bi(m)), Seed: encSeed + 77 + m, Count: 64}
-		o := &c14Op{k: key, col: col, sc: func() c14Scenario { return sc }}
-		o.fresh(newC14Tape(sc.Seed), bi(m), sc.Count)
-		res.Stats["fresh_series"]++
-	}
 
 	// ---- D1: every value of the window as ciphertext
 	var window []int64
